@@ -336,7 +336,7 @@ func NewSQLiteStore(dbPath string, opts ...SQLiteOption) (*SQLiteStore, error) {
 		}
 	}
 
-	db, err := sql.Open("sqlite", dbPath)
+	db, err := sql.Open(verifhook.SQLDriver("sqlite"), dbPath)
 	if err != nil {
 		return nil, err
 	}
